@@ -3,9 +3,9 @@ import session_common as SC
 from framework import Task
 
 
-def sched_tasks(tier, checks, prefix, msg_prefix, kinds, race=False, nobj=2, digest=False, extra_defs=''):
-    cfgs = [(0, 40, 0)] if tier == 'quick' else [(0, 40, 0), (6, 64, 1), (0, 7, 0)]
-    width = 48 if tier == 'quick' else 32
+def sched_tasks(tier, checks, prefix, msg_prefix, kinds, race=False, nobj=2, digest=False, extra_defs='', in_cs=False, cfgs=None):
+    cfgs = cfgs or ([(0, 40, 0)] if tier == 'quick' else [(0, 40, 0), (6, 64, 1), (0, 7, 0)])
+    width = (48 if tier == 'quick' else 32) * (2 if in_cs else 1)
     nranges = 12 if tier == 'quick' else 24
     out = []
     for lvl, cs, rp in cfgs:
@@ -21,10 +21,31 @@ def sched_tasks(tier, checks, prefix, msg_prefix, kinds, race=False, nobj=2, dig
                 out.append(Task(tid, defs + SC.SRC, 'h_session', None,
                                 opts=dict(validate=False, extra=['zlib_stub.cpp'], limit_is_hang=True, max_steps=12000000, max_wall=1500,
                                           enum_limit=400, msg_prefix=msg_prefix, preempt_bound=1, preempt_range=(lo, hi),
-                                          race_detect=race, digest_tags=('file',) if digest else ()),
+                                          race_detect=race, digest_tags=('file',) if digest else (), preempt_in_cs=in_cs),
                                 desc='write+read session (level %d, container %d, restore %d, %d objects%s) under every schedule '
                                      'that preempts the running thread once at a synchronisation point numbered %d..%s '
                                      '(mutex release / thread start) in favour of each other runnable thread' % (
                                          lvl, cs, rp, nobj, '' if ec < 0 else ', early close', lo, hi if r < nranges else 'end'),
                                 reach=('h_session:end',), bounds='preemption bound 1; %d objects' % nobj, kinds=kinds))
+    return out
+
+
+def digest_post(res):
+    """the finished file must be the same term-for-term under every explored schedule of one configuration"""
+    groups = {}
+    for tid, r in res.items():
+        if '.sync' not in tid:
+            continue
+        cfg = tid.rsplit('.sync', 1)[0]
+        for d, sched in r.get('out_digests', []):
+            if 'file' in d:
+                groups.setdefault(cfg, []).append((d['file'], tid, sched))
+    out = []
+    for cfg, lst in groups.items():
+        ref = lst[0][0]
+        for dg, tid, sched in lst:
+            if dg != ref:
+                out.append((tid, dict(kind='schedule_dependent', msg='the bytes of the written file differ between two schedules of the same session (%s)' % cfg,
+                                      where='post', extra=dict(schedule=sched), inputs=[])))
+                break
     return out
